@@ -78,6 +78,9 @@ def swarm(seed, tier, profile="general"):
                 roots.append(c)
     if not any(c in roots for c in MEASURE_ROOTS + PDF_ROOTS):
         roots.append(r.choice(MEASURE_ROOTS + PDF_ROOTS))
+    if profile in ("general", "boundary", "subbatch"):
+        if r.coin(0.3):
+            roots.append("NNControlGaussianConditional")
     if profile == "general":
         for c in APPROX_ROOTS:
             if r.coin(0.2):
